@@ -276,16 +276,7 @@ func partial(env Env, n ast.IsNode) (ast.IsNode, error) {
 			},
 		)
 	case ast.NodeTypeIsIn:
-		return tryPartial(env,
-			[]ast.IsNode{v.Left, v.Entity},
-			func(values []types.Value) Evaler {
-				return newIsInEval(newLiteralEval(values[0]), v.EntityType, newLiteralEval(values[1]))
-			},
-			func(nodes []ast.IsNode) ast.IsNode {
-				return ast.NodeTypeIsIn{NodeTypeIs: ast.NodeTypeIs{Left: nodes[0], EntityType: v.EntityType}, Entity: nodes[1]}
-			},
-		)
-
+		return partialIsIn(env, v)
 	case ast.NodeTypeExtensionCall:
 		nodes := make([]ast.IsNode, len(v.Args))
 		copy(nodes, v.Args)
@@ -455,6 +446,46 @@ func partialIfThenElse(env Env, v ast.NodeTypeIfThenElse) (ast.IsNode, error) {
 		elseNode = extError(elseErr)
 	}
 	return ast.NodeTypeIfThenElse{If: ifNode, Then: thenNode, Else: elseNode}, nil
+}
+
+// partialIsIn follows isInEval: the right-hand side is only evaluated once the type test is known to pass, so
+// while that test is undecided an error in the right-hand side stays in the residual.
+func partialIsIn(env Env, v ast.NodeTypeIsIn) (ast.IsNode, error) {
+	mkNode := func(nodes []ast.IsNode) ast.IsNode {
+		return ast.NodeTypeIsIn{NodeTypeIs: ast.NodeTypeIs{Left: nodes[0], EntityType: v.EntityType}, Entity: nodes[1]}
+	}
+	left, leftErr := partial(env, v.Left)
+	switch {
+	case errors.Is(leftErr, errVariable):
+		left = v.Left
+	case leftErr != nil:
+		return nil, leftErr
+	}
+	if lv, ok := left.(ast.NodeValue); ok {
+		ent, err := ValueToEntity(lv.Value)
+		if err != nil {
+			return nil, err
+		}
+		if ent.Type != v.EntityType {
+			return ast.NodeValue{Value: types.False}, nil
+		}
+		return tryPartial(env,
+			[]ast.IsNode{left, v.Entity},
+			func(values []types.Value) Evaler {
+				return newIsInEval(newLiteralEval(values[0]), v.EntityType, newLiteralEval(values[1]))
+			},
+			mkNode,
+		)
+	}
+	right, rightErr := partial(env, v.Entity)
+	if errors.Is(rightErr, errIgnore) {
+		return nil, rightErr
+	} else if errors.Is(rightErr, errVariable) {
+		right = v.Entity
+	} else if rightErr != nil {
+		right = extError(rightErr)
+	}
+	return mkNode([]ast.IsNode{left, right}), nil
 }
 
 func partialAnd(env Env, v ast.NodeTypeAnd) (ast.IsNode, error) {
